@@ -533,6 +533,9 @@ func (s *Sim) newPassword(a *Action) string {
 		return fmt.Sprintf("New\x00Passw0rd!%d", s.R.Intn(1000))
 	case "one":
 		return "x"
+	case "wsends":
+		// policy-conforming except for whitespace at an end (the default policy allows no whitespace at all)
+		return []string{" Lead1ng!space", "Trail1ng!space ", "\tTabbed1!pass", "Newl1ne!pass\n", "\u00a0Nbsp1!passw", "Ideo1!space\u3000"}[s.R.Intn(6)]
 	case "hashshaped":
 		// a password that is itself a well-formed bcrypt hash string (of something else), at the hasher's
 		// cost or above: 60 bytes, upper/lower/digit/symbol — an ordinary, policy-conforming passphrase
@@ -724,8 +727,12 @@ func (s *Sim) build(a *Action, bs *BState) world.Req {
 			rq.Method = m
 		}
 		rq.Path = w.P("/logout")
-		if v := a.opt("redir"); v != "" {
-			rq.Path += "?redir=" + url.QueryEscape(v)
+		sep := "?"
+		for _, k := range []string{"redir", "_lang", "_drop"} {
+			if v := a.opt(k); v != "" {
+				rq.Path += sep + k + "=" + url.QueryEscape(v)
+				sep = "&"
+			}
 		}
 	case "register":
 		a.PID = s.resolvePID(a)
